@@ -7,8 +7,8 @@ negatives without effects (R4); the null runner cannot reach a function body (R5
 import ast
 
 from .. import astutil as A
-from ..fa import FA
-from .effects import reach_effects, storage_backend_classes, QUERY_METHODS, MUTATOR_METHODS
+from ..fa import FA, log_call
+from .effects import reach_effects, storage_backend_classes, QUERY_METHODS, MUTATOR_METHODS, Assume
 from .c05 import check_queries_effect_free
 
 
@@ -46,22 +46,20 @@ def persistent_effect_nodes(ck, fa: FA):
 
 
 def _ro_edge_filter(fa: FA):
-    """Edges consistent with self.read_only == True."""
-    pos, neg = [], []
-    for n in fa.cfg.nodes:
-        if n.kind == "test":
-            t = A.norm(n.ast)
-            if t == "self.read_only":
-                pos.append(n.id)
-            elif t == "not self.read_only":
-                neg.append(n.id)
-    def edge_ok(s, d, l):
-        if s in pos and l == "F":
-            return False
-        if s in neg and l == "T":
-            return False
-        return True
-    return edge_ok, pos + neg
+    """Edges consistent with self.read_only == True: every branch test is evaluated three-valued with
+    `self.read_only` (through temporaries, negations, conjunctions, `is True` / `== False` comparisons) taken
+    as true; an edge the test excludes is infeasible."""
+    def atom(e):
+        if isinstance(e, ast.Attribute) and A.dotted(e) == "self.read_only":
+            return True
+        if isinstance(e, ast.Compare) and len(e.ops) == 1 and isinstance(e.ops[0], (ast.Is, ast.Eq)) \
+                and A.dotted(e.left) == "self.read_only" and isinstance(e.comparators[0], ast.Constant) \
+                and isinstance(e.comparators[0].value, bool):
+            return e.comparators[0].value is True
+        return None
+    asm = Assume(fa, atom)
+    tests = [n.id for n in fa.cfg.nodes if n.kind == "test" and asm.truth(n.ast, n.id) is not None]
+    return asm.edge_ok, tests
 
 
 def check_guard(ck):
@@ -147,15 +145,48 @@ def check_plumbing(ck):
             continue
         f2 = FA(ck, init)
         sup = [c for c in f2.calls("__init__") if isinstance(A.call_recv(c), ast.Call) and A.call_attr(A.call_recv(c)) == "super"]
-        okf = any(A.kwarg(c, "read_only") is not None and A.norm(A.kwarg(c, "read_only")) == "read_only" for c in sup)
+        bparams = [p_ for p_ in fa.fi.params if p_ != "self"]
+
+        def forwarded(c, pname):
+            v = A.arg_or_kw(c, bparams.index(pname), pname) if pname in bparams else A.kwarg(c, pname)
+            if v is None:
+                return False
+            return A.norm(v) == pname or (bool(f2.nodes(c)) and f2.xnorm(v, f2.nodes(c)[0]) == pname)
+        okf = any(forwarded(c, "read_only") for c in sup)
         ck.ob(R, f2.key(None, "forwards"), okf, "constructor forwards read_only" if okf else
               "constructor accepts read_only but does not forward it to the base class", f2.where())
-        okc = any(A.kwarg(c, "config") is not None and A.norm(A.kwarg(c, "config")) == "config" for c in sup)
+        okc = any(forwarded(c, "config") for c in sup)
         ck.ob(R, f2.key(None, "forwards-config"), okc, "constructor forwards config" if okc else
               "constructor does not forward config (the 'readonly' option is lost)", f2.where())
 
 
 NEG_CONSTS = ("False", "None", "[]", "[None] * len(fns)")
+# calls without any effect that a constant-negative answer may use
+PURE_CALLS = ("len", "ValueError", "list", "tuple", "dict", "range", "NotImplementedError", "KeyError", "format")
+
+
+def _negative_constant(e) -> bool:
+    """A 'nothing is memoized' answer, however it is spelled: False / None, an empty list / tuple / dict, or a
+    list of None (False) of the length of the request: `[None] * len(xs)`, `[None for _ in xs]`, `list(...)` of those."""
+    if isinstance(e, ast.Constant):
+        return e.value is None or e.value is False
+    if isinstance(e, (ast.List, ast.Tuple)):
+        return all(_negative_constant(x) for x in e.elts)
+    if isinstance(e, ast.Dict):
+        return not e.keys
+    if isinstance(e, ast.Call) and isinstance(e.func, ast.Name) and e.func.id in ("list", "tuple", "dict") and not e.keywords:
+        return all(_negative_constant(a) or isinstance(a, ast.GeneratorExp) and _negative_constant(a.elt) for a in e.args)
+    if isinstance(e, ast.BinOp) and isinstance(e.op, ast.Mult):
+        for seq, n in ((e.left, e.right), (e.right, e.left)):
+            if isinstance(seq, (ast.List, ast.Tuple)) and seq.elts and all(_negative_constant(x) for x in seq.elts):
+                # the multiplier is a pure size expression (len of a parameter, a constant)
+                if all(isinstance(x, (ast.Name, ast.Constant, ast.Load, ast.Attribute)) or (isinstance(x, ast.Call) and A.call_attr(x) == "len") for x in ast.walk(n)):
+                    return True
+        return False
+    if isinstance(e, (ast.ListComp, ast.GeneratorExp)):
+        return _negative_constant(e.elt) and not any(g.ifs for g in e.generators) and \
+            all(not isinstance(x, ast.Call) or A.call_attr(x) in ("range", "len") for g in e.generators for x in ast.walk(g.iter))
+    return False
 
 
 def check_null_storage(ck):
@@ -172,14 +203,18 @@ def check_null_storage(ck):
         fa = FA(ck, m)
         fs, muts, prev = reach_effects(ck, m)
         pm = [x for x in muts if _persist_owner(ck, x[0])]
-        calls = [c for c in fa.calls() if A.call_attr(c) not in ("len", "ValueError")]
+        calls = [c for c in fa.calls() if A.call_attr(c) not in PURE_CALLS and not (fa.nodes(c) and log_call(c))]
         ok = not fs and not pm and not calls
         detail = ""
         if name in QUERY_METHODS:
             for r in fa.returns():
                 if r.value is not None and A.norm(r.value) not in NEG_CONSTS:
-                    ok = False
-                    detail = "returns %s" % A.norm(r.value)
+                    leaves = [r.value]
+                    if fa.nodes(r):
+                        leaves = [e for (e, _) in Assume(fa, lambda e: None).cases(r.value, fa.nodes(r)[0])]
+                    if not all(_negative_constant(e) for e in leaves):
+                        ok = False
+                        detail = "returns %s" % A.norm(r.value)
         ck.ob(R, fa.key(None), ok, "constant negative / no effect" if ok else
               "null storage %s is not a constant negative without effects %s" % (name, detail), fa.where())
 
